@@ -11,11 +11,27 @@ fn reserved(name: &str) -> bool {
     name == ".whiteout" || name.ends_with("_wo")
 }
 
+/// reserved-looking name that the run itself never used as an entry name
+fn bookkeeping(name: &str, user_names: &BTreeSet<String>) -> bool {
+    reserved(name) && !user_names.contains(name)
+}
+
 pub fn run_c10(cfg: &RunCfg, trace: bool) -> RunOut {
     let mut tomb: BTreeSet<String> = BTreeSet::new();
     let mut recreated: BTreeSet<String> = BTreeSet::new();
     let mut tomb_by: std::collections::BTreeMap<String, &'static str> = Default::default();
     let initial = cfg.specs[0].view();
+    let mut user_names: BTreeSet<String> = BTreeSet::new();
+    for k in initial.t.keys() {
+        user_names.extend(k.split('/').map(|c| c.to_string()));
+    }
+    for op in &cfg.ops {
+        for p in op.paths() {
+            if let Ok(c) = canon(&p.s) {
+                user_names.extend(c.split('/').map(|c| c.to_string()));
+            }
+        }
+    }
     run_loop(cfg, trace, true, &mut |cx, i, op, before, want, got, snaps| {
         let shape = cx.shape.clone();
         if i > 0 {
@@ -115,7 +131,7 @@ pub fn run_c10(cfg: &RunCfg, trace: bool) -> RunOut {
         for (d, e) in &s.e {
             if let Ok(l) = &e.list {
                 for c in l {
-                    if reserved(name_of(c)) {
+                    if bookkeeping(name_of(c), &user_names) {
                         let key = format!("C10|{}|bookkeeping-visible|listing|dir={}", shape, if d.is_empty() { "root" } else { "sub" });
                         cx.violate(i, key, format!("read_dir('{}') yields the bookkeeping entry '{}' after step {} {:?}", d, c, i, op));
                         return true;
@@ -124,7 +140,7 @@ pub fn run_c10(cfg: &RunCfg, trace: bool) -> RunOut {
             }
         }
         for w in &walked {
-            if w.split('/').any(reserved) {
+            if w.split('/').any(|c| bookkeeping(c, &user_names)) {
                 let key = format!("C10|{}|bookkeeping-visible|walk", shape);
                 cx.violate(i, key, format!("walk_dir(root) yields the bookkeeping entry '{}' after step {} {:?}", w, i, op));
                 return true;
@@ -171,6 +187,24 @@ pub fn run_c08(cfg: &RunCfg, trace: bool) -> RunOut {
             let (h, lines) = deep_hash(&s);
             (id, h, lines)
         };
+        // failing calls alike: arm / disarm the injected failure around its operation
+        if let Some(plan) = &cx.cfg.fault {
+            let ctl = cx.built[0].ctl.clone();
+            if i == plan.op_index {
+                let mut f = ctl.fault.lock().unwrap();
+                f.armed = true;
+                f.counter = 0;
+                f.tripped = false;
+                f.fail_at = Some(plan.k);
+                f.sticky = plan.sticky;
+                f.kind = io_kind(&plan.kind);
+                f.nodes = plan.nodes;
+                drop(f);
+                ctl.fault_on.store(true, std::sync::atomic::Ordering::SeqCst);
+            } else if i == plan.op_index + 1 {
+                ctl.fault.lock().unwrap().armed = false;
+            }
+        }
         if !started {
             started = true;
             lower_before = layer_roots.iter().map(|id| take(*id)).collect();
